@@ -40,6 +40,14 @@ CLAIMED = {
         text="The cost is decomposed along its anchors and each piece is verified on the real source: CostFunction.__call__ for every built-in configuration (loop invariant over the constraint list: result = handle(core arguments) + the cost of EVERY constraint + the log-determinant when present, nothing else); CostFunction_Chi2._chi2 on its QR, Cholesky, pointwise and no-error paths incl. the documented fallbacks and raise conditions, identified with r^T V^-1 r through Lean/Mathlib lemmas; log_determinant_cholesky/qr/pointwise = ln det V; the four negative log-likelihood statics; both constraint cost methods; XYFit._project_cov_mat/_project_error and the central-difference model slope; the two total = model + data lambdas registered in the graph; FitBase._on_error_change (every basic error node marked, implicit no-error chi2 replaced by the covariance chi2, re-registered and re-targeted) and the FitBase.data setter wiring BOTH the data container and the parametric model to it - which is what 'no declared source is silently ignored, also when a model-referenced source is the first or only one' rests on.",
         note="Trusted: Lean lemmas as axioms over uninterpreted linear algebra (checked by `lean` in the thorough tier); numpy/scipy contracts for qr, cholesky, solve_triangular, inner/dot/sum/log and the log densities; cost handle pure; node values delivered by the graph (C04); per-container totals (C02); floats as reals with NaN guards never firing. Open known finding KF-C01-1 (HistFit density=True with a model-relative source, a FIXME in the code). Bounded/enumerated only (native, 640 configurations): end-to-end cost of real fits of all four types against an independent formula implementation, the typed wiring table of cost arguments for every fit type x cost identifier, and 'every error-reading node below the cost is in the marked set'.",
         ref="3 C01"),
+    "C07": dict(
+        text="The code that turns the optimiser's raw outputs into the reported uncertainties is verified on the real source: MinimizerBase fill/remove of zero rows and columns for fixed parameters (loop invariants with a rank function and a gap lemma proved by z3 induction), the chain hessian -> hessian_inv -> cov_mat = 2 errordef H^-1 -> cor_mat = C_ij/(sigma_i sigma_j) (idempotent cached getters) for the base class and the iminuit adapter, _calculate_asymmetric_parameter_errors (each free parameter: the two crossings of the profile at rise 1 around the optimum, state saved and restored, fixed parameters get 0), the profile trace of _find_cost_cut, _save_state/_load_state as an exact round trip, and XYFit.error_band = sqrt of the quadratic form of the Jacobian row with the covariance restricted to the FREE parameters. Proof level over uninterpreted linear algebra is right: the property is a family of defining equations, not numerics.",
+        note="Trusted: numdifftools.Hessian / iminuit.hesse return the Hessian at the optimum; np.linalg.inv is the inverse; scipy brentq returns a root of its argument; masked-index identity for the band; floats as reals. Bounded only (native): the equations on real back ends for quadratic costs with known curvature, every fixed subset, both errordefs; MINUIT contour points lie on the errordef*sigma^2 level; the scipy adapter's heuristic contour grid is not checked (stated).",
+        ref="3 C07"),
+    "C15": dict(
+        text="Bookkeeping only: every kafe2 function that translates between the full and the free parameter vector, or addresses parameters by position, is verified against a rank-based, label-free specification: fill/remove of fixed rows and columns (shared with C07), the scipy adapter's argument re-packing loop for fixed parameters (invariant: the k-th free slot receives the k-th free argument, for any number and position of fixed parameters, including the nested objective), its per-name fix/release/limit/unlimit bookkeeping over every limit pattern of three parameters, is_diagonal as a statement about exact zeros (hence the same in every unit), and NexusFitter's initial step sizes. End-to-end invariance of an optimiser's result is numerical and is NOT proved; it is observed by the bounded native run only.",
+        note="Trusted as C07 plus: scipy.optimize.minimize calls the objective with vectors of the length it was given; numpy fancy / mask indexing identities. Bounded only (never counted as proved): twin fits under permutation of points (correlated covariance, with and without x errors), all orders of three parameters x {none, fixed, limited, constrained, combinations} incl. asymmetric errors and band, rescaling of y by 1e-6..1e4 on both back ends. Open known finding KF-C15-1: the scipy back end is not invariant under rescaling y by >= 1000x (absolute optimiser tolerances); iminuit is.",
+        ref="3 C15"),
 }
 
 NOT_APPLICABLE = {
